@@ -123,6 +123,15 @@ class View:
             res.append((comments, bool(_BLANK_RE.search(_COMMENT_RE.sub("", gap)))))
         return res
 
+    def edge_comments(self):
+        """(comments in front of the first token of the file, comments behind the last token), as stripped texts."""
+        toks = cst.tokens(self.tree)
+        if not toks:
+            return ((), ())
+        first, last = toks[0].start, toks[-1].end
+        cs = cst.comments(self.tree)
+        return (tuple(c.wording for c in cs if c.end <= first), tuple(c.wording for c in cs if c.start >= last))
+
     def let_head_comments(self):
         """Per enclosing let (outermost first): the comment that shares the line with the `let` keyword, or None."""
         res = []
